@@ -422,6 +422,10 @@ class HTTP(BaseComponent):
             req = res.request
         elif isinstance(fevent.value.parent.event, request):
             req, res = fevent.value.parent.event.args[:2]
+            # already answered by the request_failure handler
+            if req.handled:
+                return
+            req.handled = True
         elif len(fevent.args[2:]) == 4:
             req, res = fevent.args[2:]
         elif len(fevent.args) == 2 and isinstance(fevent.args[0], socket):
